@@ -260,7 +260,7 @@ func (b *backend) serve(conn *net.UDPConn) {
 			if err != nil {
 				return
 			}
-			b.handle(conn, append([]byte(nil), buf[:n]...), from)
+			b.handle(append([]byte(nil), buf[:n]...), from.String(), func(rp []byte) { _, _ = conn.WriteToUDP(rp, from) })
 		}
 	}()
 }
@@ -270,7 +270,9 @@ func (b *backend) Close() {
 	b.mu.Lock()
 	conn := b.conn
 	b.mu.Unlock()
-	conn.Close()
+	if conn != nil { // nil: backend played by a scripted owner on the work connection itself
+		conn.Close()
+	}
 	b.wg.Wait()
 }
 
@@ -295,7 +297,9 @@ func (b *backend) setTiny(id *dgID) {
 	b.mu.Unlock()
 }
 
-func (b *backend) handle(conn *net.UDPConn, p []byte, from *net.UDPAddr) {
+// handle judges one payload handed to the backend; from names the source as the backend sees it, send
+// returns a reply to that source.
+func (b *backend) handle(p []byte, from string, send func(rp []byte)) {
 	cs := b.cs
 	cs.arrivals.Add(1)
 	run.Count("backend_datagrams", 1)
@@ -307,7 +311,7 @@ func (b *backend) handle(conn *net.UDPConn, p []byte, from *net.UDPAddr) {
 		b.mu.Unlock()
 		if cur == nil || len(p) >= hdrLen {
 			// neither a header-carrying datagram of this case nor the tiny datagram in flight
-			cs.c.Ev("backend-unknown", "tun", b.tun, "from", from.String(), "payload", clip(p))
+			cs.c.Ev("backend-unknown", "tun", b.tun, "from", from, "payload", clip(p))
 			cs.integrity("backend-datagram-not-sent-by-any-user", "backend of tunnel %d received %s from %s: no user sent a datagram with this payload (header does not verify; tiny datagram in flight: %v)",
 				b.tun, clip(p), from, cur != nil)
 			return
@@ -326,10 +330,10 @@ func (b *backend) handle(conn *net.UDPConn, p []byte, from *net.UDPAddr) {
 	times := cs.seen[id]
 	cs.mu.Unlock()
 	b.mu.Lock()
-	if b.froms[from.String()] == nil {
-		b.froms[from.String()] = map[int]bool{}
+	if b.froms[from] == nil {
+		b.froms[from] = map[int]bool{}
 	}
-	b.froms[from.String()][id.User] = true
+	b.froms[from][id.User] = true
 	b.mu.Unlock()
 	if !known {
 		cs.integrity("backend-datagram-not-sent-by-any-user", "backend of tunnel %d received a well-formed datagram %v (declared length %d, actual %d) that was never sent", b.tun, id, declared, len(p))
@@ -350,7 +354,7 @@ func (b *backend) handle(conn *net.UDPConn, p []byte, from *net.UDPAddr) {
 	if plan == nil {
 		return
 	}
-	send := func() {
+	sendAll := func() {
 		for j, rp := range plan.Payloads {
 			rid := id
 			rid.J = j + 1
@@ -358,13 +362,13 @@ func (b *backend) handle(conn *net.UDPConn, p []byte, from *net.UDPAddr) {
 			cs.repSent[rid]++
 			cs.mu.Unlock()
 			run.Count("replies_sent", 1)
-			_, _ = conn.WriteToUDP(rp, from)
+			send(rp)
 		}
 	}
 	if plan.Delay > 0 {
-		time.AfterFunc(plan.Delay, send)
+		time.AfterFunc(plan.Delay, sendAll)
 	} else {
-		send()
+		sendAll()
 	}
 }
 
